@@ -80,19 +80,21 @@ def main():
             meta['baseline_missing'] = missing
     finally:
         run(['git', '-C', '/repo', 'worktree', 'remove', '--force', scratch])
-    # run my checks against it
-    st = run(['git', '-C', '/repo', 'status', '--porcelain'])
-    if st.stdout.strip():
-        print('refusing: /repo has uncommitted changes'); sys.exit(2)
-    ap = run(['git', '-C', '/repo', 'apply', f'{dst}/patch.diff'])
+    # run my checks against it: in a second scratch worktree with the change applied,
+    # VERIF_REPO pointing the checks at it (/repo itself is not touched)
+    alt = tempfile.mkdtemp(prefix='seedalt-', dir='/tmp')
+    os.rmdir(alt)
+    run(['git', '-C', '/repo', 'worktree', 'add', '-q', '--detach', alt, 'HEAD'])
     try:
+        ap = run(['git', 'apply', f'{dst}/patch.diff'], cwd=alt)
+        env = dict(ENV, VERIF_REPO=alt)
         for pr in checks:
-            r = run(['/verif/check', pr, '--tier', 'quick'], cwd='/verif', timeout=3600)
+            r = subprocess.run(['/verif/check', pr, '--tier', 'quick'], cwd='/verif', env=env, capture_output=True, text=True, timeout=3600)
             lines = [l for l in r.stdout.splitlines() if l.startswith('VIOLATION') or l.startswith('  ')][:6]
             meta['checks'][pr] = {'exit': r.returncode, 'detected': r.returncode == 1, 'first_lines': lines, 'stderr_tail': r.stderr[-400:] if r.returncode == 2 else ''}
     finally:
-        run(['git', '-C', '/repo', 'checkout', '--', '.'])
-    meta['what_ran'] = 'fresh scratch worktree of /repo HEAD: demo without change, git apply, go build ./..., demo with change, pinned baseline tests with change; then git -C /repo apply + ./check <prop> --tier quick + git checkout'
+        run(['git', '-C', '/repo', 'worktree', 'remove', '--force', alt])
+    meta['what_ran'] = 'fresh scratch worktree of /repo HEAD: demo without change, git apply, go build ./..., demo with change, pinned baseline tests with change; then a second scratch worktree with the change applied and VERIF_REPO=<it> ./check <prop> --tier quick'
     json.dump(meta, open(f'{dst}/meta.json', 'w'), indent=1)
     print(json.dumps({k: meta[k] for k in ('id', 'property', 'confirmed')}, indent=1))
     for pr, v in meta['checks'].items():
